@@ -155,3 +155,10 @@ Definition first_bad (c : tcase) : option nat :=
   | inr e => None
   | inl s0 => replay (tc_palette c) (tc_salt c) (tc_draws c) (tc_actions c) (tc_plan c) 0 s0 (tc_ops c)
   end.
+
+(* structural check of the RL bootstrap: supplied classes -> (classes of the scheduler's tuple, bootstrap index) *)
+Definition check_bootstrap (c : list nat * list nat * nat) : bool :=
+  let '(supplied, obs_classes, obs_h) := c in
+  let l := map (fun k => mkS k 0 1 0 None) supplied in
+  let '(l', h) := rl_bootstrap l (mkS HALTON 0 1 0 None) in
+  list_eqb Nat.eqb (map s_class l') obs_classes && Nat.eqb h obs_h.
